@@ -27,7 +27,7 @@ p = sh(['go', 'build', '-tags', 'verif', './...'], cwd=wt); out['builds_with_tag
 shutil.copy(os.path.join(mdir, 'demo_test.go'), os.path.join(wt, 'zz_seeded_demo_test.go'))
 p = sh(demo, cwd=wt); out['demo_fails_with_change'] = p.returncode != 0
 os.remove(os.path.join(wt, 'zz_seeded_demo_test.go'))
-e2 = dict(env, VERIF_REPO=wt, VERIF_BUILD='/tmp/mutbuild')
+e2 = dict(env, VERIF_REPO=wt, VERIF_BUILD=os.environ.get('MUTBUILD', '/tmp/mutbuild'))
 p = sh([sys.executable, os.path.join(ROOT, 'bin', 'check.py'), '--build-only'], e=e2)
 out['framework_build'] = p.returncode == 0
 det = {}
